@@ -163,7 +163,7 @@ def run_case(ctx, case):
     rng = ctx.rng()
     clock = rig.install_clock(rig.VClock(step=0))
     pols = rig.default_policies()
-    pols['team'] = {'groups': {'g1': pols['public']['preset']}, 'preset': pols['default']['preset']}
+    pols['team'] = {'groups': {'g1': pols['open']['preset']}, 'preset': pols['default']['preset']}
     with rig.scratch_dir() as d:
         srv = rig.Server(d + '/db.sqlite', policies=pols)
         try:
@@ -174,7 +174,7 @@ def run_case(ctx, case):
                     clock.advance(rng.choice((1, 1, 5, 100)))
                 kind = rng.choice(store.KINDS)
                 owner = rng.choice(USERS)
-                policy = rng.choice((None, None, 'public', 'team'))
+                policy = rng.choice((None, None, 'public', 'team', 'open'))
                 version = rng.choice(((1, 2), (1, 4)))
                 names = ['nm-%d-%d' % (i, j) for j in range(rng.randrange(0, 3))]
                 if rng.random() < 0.2 and shadows:
